@@ -1,5 +1,312 @@
-use crate::util::{Args, Report};
-pub fn run(_a: &Args, _r: &mut Report) {
-    eprintln!("not implemented yet");
-    std::process::exit(2);
+//! C09 — Beast stream framing is lossless and independent of read chunking.
+//! Uses hook H1 (DataSource::Chunks) so that chunk boundaries are exact.
+use crate::util::{fnv, guarded, hexs, msg_class, short_loc, Args, Report, Rng};
+use futures_util::{pin_mut, StreamExt};
+use rs1090::source::beast::{next_msg, DataSource};
+use serde_json::json;
+use std::collections::VecDeque;
+
+struct Frame {
+    raw: Vec<u8>,     // escaped bytes as on the wire
+    plain: Vec<u8>,   // what the reader must hand on (0x1A type ts sig payload), empty for type 0x34
+    kind: u8,
+}
+
+fn gen_frame(rng: &mut Rng, density: f64, kind: u8) -> Frame {
+    let plen = match kind {
+        0x31 => 2,
+        0x32 => 7,
+        _ => 14,
+    };
+    let mut body = rng.bytes(7 + plen);
+    for b in body.iter_mut() {
+        if *b == 0x1A && !rng.chance(density) {
+            *b = 0x1B;
+        } else if rng.chance(density) {
+            *b = 0x1A;
+        }
+    }
+    // runs of consecutive 0x1A and 0x1A at field boundaries
+    match rng.below(8) {
+        0 => {
+            let n = rng.range(2, 6) as usize;
+            let s = rng.below((body.len() - n + 1) as u64) as usize;
+            for b in &mut body[s..s + n] {
+                *b = 0x1A;
+            }
+        }
+        1 => body[0] = 0x1A,
+        2 => body[5] = 0x1A,
+        3 => body[6] = 0x1A,
+        4 => body[7] = 0x1A,
+        5 => {
+            let n = body.len();
+            body[n - 1] = 0x1A
+        }
+        _ => {}
+    }
+    let mut raw = vec![0x1A, kind];
+    let mut plain = vec![0x1A, kind];
+    for b in &body {
+        raw.push(*b);
+        if *b == 0x1A {
+            raw.push(0x1A);
+        }
+        plain.push(*b);
+    }
+    Frame { raw, plain, kind }
+}
+
+fn gen_stream(rng: &mut Rng, max_raw: usize) -> Vec<Frame> {
+    let density = *rng.pick(&[0.0, 0.02, 0.1, 0.2, 0.4]);
+    let mut v = vec![];
+    let mut total = 0;
+    let n = rng.range(1, 8);
+    for _ in 0..n {
+        let kind = *rng.pick(&[0x31u8, 0x32, 0x33, 0x33, 0x33, 0x32, 0x34]);
+        let f = gen_frame(rng, density, kind);
+        if total + f.raw.len() > max_raw {
+            break;
+        }
+        total += f.raw.len();
+        v.push(f);
+    }
+    if v.is_empty() {
+        v.push(gen_frame(rng, density, 0x31));
+    }
+    v
+}
+
+fn run_reader(rt: &tokio::runtime::Runtime, chunks: Vec<Vec<u8>>) -> Result<Vec<Vec<u8>>, (String, String)> {
+    guarded(|| {
+        rt.block_on(async {
+            let q: VecDeque<Vec<u8>> = chunks.into_iter().collect();
+            let s = next_msg(DataSource::Chunks(q)).await;
+            pin_mut!(s);
+            let mut out = vec![];
+            while let Some(m) = s.next().await {
+                out.push(m);
+                if out.len() > 10_000 {
+                    break;
+                }
+            }
+            out
+        })
+    })
+}
+
+fn split(raw: &[u8], cuts: &[usize]) -> Vec<Vec<u8>> {
+    let mut out = vec![];
+    let mut prev = 0;
+    for c in cuts {
+        if *c > prev && *c < raw.len() {
+            out.push(raw[prev..*c].to_vec());
+            prev = *c;
+        }
+    }
+    out.push(raw[prev..].to_vec());
+    // never hand the reader more than its 1024-byte buffer at once
+    out.into_iter().flat_map(|c| c.chunks(1024).map(|x| x.to_vec()).collect::<Vec<_>>()).filter(|c| !c.is_empty()).collect()
+}
+
+struct Case<'a> {
+    frames: &'a [Frame],
+    raw: Vec<u8>,
+    expected: Vec<&'a [u8]>,
+    frame_end: Vec<usize>, // raw offset just after each frame
+}
+
+fn cut_class(raw: &[u8], cut: usize, frame_end: &[usize]) -> &'static str {
+    if frame_end.contains(&cut) {
+        return "cut:at-frame-boundary";
+    }
+    let before = raw[cut - 1] == 0x1A;
+    let after = raw[cut] == 0x1A;
+    match (before, after) {
+        (true, true) => "cut:between-two-0x1A",
+        (true, false) => "cut:just-after-0x1A",
+        (false, true) => "cut:just-before-0x1A",
+        _ => "cut:plain",
+    }
+}
+
+/// judge one delivery; returns the yielded frames for comparison
+fn judge(r: &mut Report, case: &Case, cuts: &[usize], got: &Result<Vec<Vec<u8>>, (String, String)>, coarse: Option<&Vec<Vec<u8>>>, label: &str) {
+    r.evaluations += 1;
+    let rp = || json!({"stream": hexs(&case.raw), "cuts": cuts, "frames": case.frames.iter().map(|f| hexs(&f.raw)).collect::<Vec<_>>()});
+    let got = match got {
+        Err((loc, msg)) => {
+            r.violation(&format!("C09:panic:{}", short_loc(loc)), format!("reader panicked on {} cut at {:?}: {}", hexs(&case.raw), cuts, msg_class(msg)), rp());
+            return;
+        }
+        Ok(g) => g,
+    };
+    // 1. prefix of the expected sequence
+    for (i, m) in got.iter().enumerate() {
+        if i >= case.expected.len() || m.as_slice() != case.expected[i] {
+            let what = if i >= case.expected.len() { "an extra frame".to_string() } else { format!("frame {i} = {} instead of {}", hexs(m), hexs(case.expected[i])) };
+            r.violation(&format!("C09:not-a-prefix:{label}"), format!("stream {} cut at {:?}: reader yielded {what}", hexs(&case.raw), cuts), rp());
+            return;
+        }
+    }
+    // 2. only the tail inside the look-ahead may be pending
+    let yielded = got.len();
+    // raw offset of the first expected-but-missing frame
+    let mut seen = 0;
+    let mut start = case.raw.len();
+    let mut prev_end = 0;
+    for (f, end) in case.frames.iter().zip(&case.frame_end) {
+        if f.kind != 0x34 {
+            if seen == yielded {
+                start = prev_end;
+                break;
+            }
+            seen += 1;
+        }
+        prev_end = *end;
+    }
+    if yielded < case.expected.len() {
+        let pending = &case.raw[start..];
+        let pairs = {
+            // number of escape pairs inside the pending suffix
+            let mut n = 0;
+            let mut i = 2;
+            while i + 1 < pending.len() {
+                if pending[i] == 0x1A && pending[i + 1] == 0x1A {
+                    n += 1;
+                    i += 2;
+                } else {
+                    i += 1;
+                }
+            }
+            n
+        };
+        let limit_ok = if cuts.is_empty() { pending.len() < 23 } else { pending.len() - pairs.min(pending.len()) < 23 };
+        if !limit_ok {
+            r.violation(&format!("C09:pending-beyond-lookahead:{label}"), format!("stream {} cut at {:?}: {} of {} frames handed on, {} raw bytes ({} escape pairs) left pending", hexs(&case.raw), cuts, yielded, case.expected.len(), pending.len(), pairs), rp());
+            return;
+        }
+    }
+    // 3. same as the coarsest delivery
+    if let Some(c) = coarse {
+        if c != got {
+            r.violation(&format!("C09:chunking-dependent:{label}"), format!("stream {} cut at {:?}: {} frames handed on, {} when delivered in one piece", hexs(&case.raw), cuts, got.len(), c.len()), rp());
+            return;
+        }
+    }
+    r.class(label);
+    r.distinct(fnv(&case.raw) ^ fnv(&cuts.iter().flat_map(|c| (*c as u32).to_le_bytes()).collect::<Vec<_>>()).rotate_left(17));
+}
+
+fn exercise(r: &mut Report, rt: &tokio::runtime::Runtime, rng: &mut Rng, frames: &[Frame], exhaustive_cuts: bool, pairs_budget: usize) {
+    let mut raw = vec![];
+    let mut frame_end = vec![];
+    for f in frames {
+        raw.extend_from_slice(&f.raw);
+        frame_end.push(raw.len());
+    }
+    let expected: Vec<&[u8]> = frames.iter().filter(|f| f.kind != 0x34).map(|f| f.plain.as_slice()).collect();
+    let case = Case { frames, raw: raw.clone(), expected, frame_end };
+    let coarse = run_reader(rt, split(&raw, &[]));
+    judge(r, &case, &[], &coarse, None, "one-piece");
+    let coarse_ok = coarse.as_ref().ok();
+    let n = raw.len();
+    if exhaustive_cuts {
+        for c in 1..n {
+            let got = run_reader(rt, split(&raw, &[c]));
+            judge(r, &case, &[c], &got, coarse_ok, "single-cut(exhaustive)");
+            r.class(cut_class(&raw, c, &case.frame_end));
+        }
+        // all pairs when affordable, otherwise a random subset of the pairs
+        let total_pairs = (n - 1) * (n - 2) / 2;
+        if total_pairs <= pairs_budget {
+            for c1 in 1..n {
+                for c2 in (c1 + 1)..n {
+                    let got = run_reader(rt, split(&raw, &[c1, c2]));
+                    judge(r, &case, &[c1, c2], &got, coarse_ok, "double-cut(exhaustive)");
+                }
+            }
+        } else {
+            for _ in 0..pairs_budget {
+                let c1 = rng.range(1, n as i64 - 2) as usize;
+                let c2 = rng.range(c1 as i64 + 1, n as i64 - 1) as usize;
+                let got = run_reader(rt, split(&raw, &[c1, c2]));
+                judge(r, &case, &[c1, c2], &got, coarse_ok, "double-cut(sampled)");
+            }
+        }
+    }
+    // random multi-cut
+    for _ in 0..4 {
+        let k = rng.range(3, 8) as usize;
+        let mut cuts: Vec<usize> = (0..k).map(|_| rng.range(1, (n as i64 - 1).max(1)) as usize).collect();
+        cuts.sort();
+        cuts.dedup();
+        let got = run_reader(rt, split(&raw, &cuts));
+        judge(r, &case, &cuts, &got, coarse_ok, "multi-cut(random)");
+    }
+    // 1-byte dribble
+    let cuts: Vec<usize> = (1..n).collect();
+    let got = run_reader(rt, split(&raw, &cuts));
+    judge(r, &case, &cuts, &got, coarse_ok, "dribble(1-byte reads)");
+    // cuts targeted at every escape pair: before / between / after
+    for i in 2..n.saturating_sub(1) {
+        if raw[i] == 0x1A && raw[i + 1] == 0x1A && !exhaustive_cuts {
+            for c in [i, i + 1, i + 2] {
+                if c > 0 && c < n {
+                    let got = run_reader(rt, split(&raw, &[c]));
+                    judge(r, &case, &[c], &got, coarse_ok, "cut-at-escape-pair");
+                    r.class(cut_class(&raw, c, &case.frame_end));
+                }
+            }
+        }
+    }
+}
+
+pub fn run(a: &Args, r: &mut Report) {
+    r.rule = "frame sequences of 1-8 Beast frames (0x31/0x32/0x33 and 0x34 which must be swallowed), 0x1A density 0-40 %, runs of 2-6 consecutive 0x1A, 0x1A as first/last byte of timestamp, signal and payload; chunkings: one piece, EVERY single cut and EVERY pair of cuts of each short stream (<= 80 raw bytes quick, <= 200 thorough), random multi-cut, 1-byte dribble, cuts before/between/after every escape pair of long streams (up to 3000 bytes, 1024-byte reads); delivered through hook H1 on a current-thread executor. distinct = distinct (stream, chunking) pairs with a correct result".into();
+    r.assumptions.push("a frame may stay pending while fewer than 23 bytes (one byte of slack per escape pair, for chunked deliveries) of the stream remain after the last frame handed on".into());
+    let rt = tokio::runtime::Builder::new_current_thread().build().unwrap();
+    if let Some(p) = &a.replay {
+        let v: serde_json::Value = serde_json::from_str(&std::fs::read_to_string(p).unwrap()).unwrap();
+        let raw = hex::decode(v["replay"]["stream"].as_str().unwrap()).unwrap();
+        let cuts: Vec<usize> = v["replay"]["cuts"].as_array().unwrap().iter().map(|x| x.as_u64().unwrap() as usize).collect();
+        let one = run_reader(&rt, split(&raw, &[]));
+        let got = run_reader(&rt, split(&raw, &cuts));
+        r.evaluations += 1;
+        r.extra.insert("one_piece".into(), json!(one.as_ref().map(|v| v.iter().map(|m| hexs(m)).collect::<Vec<_>>()).map_err(|e| e.1.clone())));
+        r.extra.insert("chunked".into(), json!(got.as_ref().map(|v| v.iter().map(|m| hexs(m)).collect::<Vec<_>>()).map_err(|e| e.1.clone())));
+        if one.ok() != got.ok() {
+            r.violation("C09:chunking-dependent:replay", "chunked delivery differs from one piece".into(), v["replay"].clone());
+        }
+        return;
+    }
+    let mut rng = Rng::new(a.seed, a.shard, "C09");
+    let max_raw = if a.thorough() { 200 } else { 80 };
+    let nstreams = a.budget(1_600, 160_000);
+    for i in 0..nstreams {
+        let frames = gen_stream(&mut rng, max_raw);
+        exercise(r, &rt, &mut rng, &frames, true, if a.thorough() { 20_000 } else { 3_200 });
+        if i < 2 {
+            r.sample(json!({"stream": hexs(&frames.iter().flat_map(|f| f.raw.clone()).collect::<Vec<u8>>()), "frames": frames.len(), "chunkings": "one piece, all single cuts, all double cuts, 4 random multi-cuts, dribble"}));
+        }
+    }
+    // long streams: more than one 1024-byte read, targeted cuts only
+    let nlong = a.budget(320, 32_000);
+    for _ in 0..nlong {
+        let mut frames = vec![];
+        let mut total = 0;
+        let density = *rng.pick(&[0.02, 0.1, 0.3]);
+        let target = rng.range(300, 3000) as usize;
+        while total < target {
+            let kind = *rng.pick(&[0x31u8, 0x32, 0x33, 0x33, 0x34]);
+            let f = gen_frame(&mut rng, density, kind);
+            total += f.raw.len();
+            frames.push(f);
+            rng.next();
+        }
+        exercise(r, &rt, &mut rng, &frames, false, 0);
+    }
+    if !a.asan {
+        r.extra.insert("mandatory".into(), json!(["one-piece", "single-cut(exhaustive)", "double-cut(exhaustive)", "dribble(1-byte reads)", "cut:between-two-0x1A", "cut:just-after-0x1A", "cut:just-before-0x1A", "cut:at-frame-boundary", "cut-at-escape-pair"]));
+    }
 }
